@@ -351,3 +351,97 @@ def inline_helpers(tree: ast.Module, anchored=None) -> int:
     if n:
         ast.fix_missing_locations(tree)
     return n
+
+
+# ---------------------------------------------------------------------------------------------------------------------
+# counted-loop normalisation
+
+
+def _leading_break(body):
+    """`if c: break` as the first statement (after a docstring-free body) -> c"""
+    if body and isinstance(body[0], ast.If) and not body[0].orelse and len(body[0].body) == 1 and isinstance(body[0].body[0], ast.Break):
+        return body[0].test
+    return None
+
+
+def _negate(test):
+    if isinstance(test, ast.Compare) and len(test.ops) == 1:
+        flip = {ast.Lt: ast.GtE, ast.LtE: ast.Gt, ast.Gt: ast.LtE, ast.GtE: ast.Lt, ast.Eq: ast.NotEq, ast.NotEq: ast.Eq}
+        op = type(test.ops[0])
+        if op in flip:
+            return ast.copy_location(ast.Compare(left=test.left, ops=[flip[op]()], comparators=test.comparators), test)
+    if isinstance(test, ast.UnaryOp) and isinstance(test.op, ast.Not):
+        return test.operand
+    return ast.copy_location(ast.UnaryOp(op=ast.Not(), operand=test), test)
+
+
+class _LoopNorm(ast.NodeTransformer):
+    """`for v in range(a, b): if c: break; BODY`  ->  `v = a; while not c and v < b: BODY; v += 1`
+    `for x in SEQ[a:]: if c: break; BODY`          ->  `i = a; while not c and i < len(SEQ): x = SEQ[i]; BODY; i += 1`
+
+    Only the counted-while idiom (a leading conditional break, no `continue`, no `else`, the counter not assigned in the body)
+    is rewritten: there the two spellings are the same loop, and the rules describe it once, as a while loop."""
+
+    def __init__(self):
+        self.n = 0
+
+    def visit_For(self, node: ast.For):
+        self.generic_visit(node)
+        c = _leading_break(node.body)
+        if c is None or node.orelse:
+            return node
+        body = node.body[1:]
+        for st in body:
+            for x in _walk_loop_own(st):
+                if isinstance(x, ast.Continue):
+                    return node
+        it = node.iter
+        stores = {x.id for st in body for x in _walk_own(st) if isinstance(x, ast.Name) and isinstance(x.ctx, ast.Store)}
+        loc = node
+
+        def L(n):
+            return ast.copy_location(n, loc)
+
+        if (isinstance(it, ast.Call) and isinstance(it.func, ast.Name) and it.func.id == "range" and not it.keywords
+                and 1 <= len(it.args) <= 2 and isinstance(node.target, ast.Name) and node.target.id not in stores):
+            lo = it.args[0] if len(it.args) == 2 else ast.Constant(value=0)
+            hi = it.args[-1]
+            v = node.target.id
+            init = L(ast.Assign(targets=[L(ast.Name(id=v, ctx=ast.Store()))], value=lo))
+            test = L(ast.BoolOp(op=ast.And(), values=[_negate(c), L(ast.Compare(left=L(ast.Name(id=v, ctx=ast.Load())), ops=[ast.Lt()], comparators=[hi]))]))
+            step = L(ast.AugAssign(target=L(ast.Name(id=v, ctx=ast.Store())), op=ast.Add(), value=L(ast.Constant(value=1))))
+            self.n += 1
+            return [init, L(ast.While(test=test, body=body + [step], orelse=[]))]
+        seq, lo = None, None
+        if isinstance(it, ast.Subscript) and isinstance(it.slice, ast.Slice) and it.slice.upper is None and it.slice.step is None and it.slice.lower is not None:
+            seq, lo = it.value, it.slice.lower
+        if seq is not None and isinstance(seq, (ast.Name, ast.Attribute)):
+            self.n += 1
+            i = f"{_PREFIX}i{self.n}"
+            init = L(ast.Assign(targets=[L(ast.Name(id=i, ctx=ast.Store()))], value=lo))
+            ln = L(ast.Call(func=L(ast.Name(id="len", ctx=ast.Load())), args=[copy.deepcopy(seq)], keywords=[]))
+            test = L(ast.BoolOp(op=ast.And(), values=[_negate(c), L(ast.Compare(left=L(ast.Name(id=i, ctx=ast.Load())), ops=[ast.Lt()], comparators=[ln]))]))
+            cur = L(ast.Assign(targets=[node.target], value=L(ast.Subscript(value=copy.deepcopy(seq), slice=L(ast.Name(id=i, ctx=ast.Load())), ctx=ast.Load()))))
+            step = L(ast.AugAssign(target=L(ast.Name(id=i, ctx=ast.Store())), op=ast.Add(), value=L(ast.Constant(value=1))))
+            return [init, L(ast.While(test=test, body=[cur] + body + [step], orelse=[]))]
+        return node
+
+
+def _walk_loop_own(node):
+    """Nodes of a statement excluding nested loops (whose break / continue belong to them) and nested scopes."""
+    stack = [node]
+    while stack:
+        n = stack.pop()
+        yield n
+        for c in ast.iter_child_nodes(n):
+            if isinstance(c, (ast.For, ast.While, ast.AsyncFor, ast.FunctionDef, ast.AsyncFunctionDef, ast.ClassDef, ast.Lambda)):
+                continue
+            stack.append(c)
+
+
+def normalise_loops(tree: ast.Module) -> int:
+    t = _LoopNorm()
+    t.visit(tree)
+    if t.n:
+        ast.fix_missing_locations(tree)
+    return t.n
